@@ -126,7 +126,7 @@ def correspondence(ctx):
     try:
         for tzenv in (["UTC", "America/New_York", "Europe/London"] if ctx.budget(0, 1) else ["UTC", "Europe/London"]):
             L.set_tz(tzenv)
-            calls = gen_calls(ctx, rng, ctx.budget(9000, 120000))
+            calls = gen_calls(ctx, rng, ctx.budget(20000, 120000))
             model = L.model_answers(ctx, calls)
             for c, m in zip(calls, model):
                 i, _, _ = L.run_impl(c)
@@ -155,7 +155,7 @@ def oracle(ctx):
                 seeds.append(L.Call(m["input"]["text"], tag="mismatch"))
         for tzenv in ["UTC", "America/New_York"]:
             L.set_tz(tzenv)
-            calls = seeds + gen_calls(ctx, rng, ctx.budget(12000, 200000))
+            calls = seeds + gen_calls(ctx, rng, ctx.budget(30000, 200000))
             first = []
             for c in calls:
                 ans, dt, raw = L.run_impl(c, raw=True)
